@@ -121,3 +121,44 @@ func devStress(pool *sup.Pool, args []string) int {
 }
 
 func init() { devCmds["stress"] = devStress }
+
+// devInflate: check every Inflate kind on n generated programs against R1, R2 and the real
+// typechecker (development aid).
+func devInflate(pool *sup.Pool, args []string) int {
+	n, _ := strconv.Atoi(args[0])
+	r := rand.New(rand.NewSource(99))
+	var jobs []sup.Job
+	var desc []string
+	for i := 0; i < n; i++ {
+		p, _, _ := gen.Generate(int64(1000+i), nil)
+		for _, k := range []string{"alias-chain", "pad-types", "pad-funcs", "cut-chain", "long-names", "many-params"} {
+			q, kind := mut.Inflate(p, r, k)
+			if v := typing.Check(q); v.Kind != typing.Accept {
+				fmt.Println("R1 rejects", kind, v)
+				fmt.Println(q.Text())
+				return 1
+			}
+			m0, m1 := sem.New(p), sem.New(q)
+			if !m0.Lazy(400000) || !m1.Lazy(4000000) || sem.MS(m0.Prints) != sem.MS(m1.Prints) {
+				fmt.Println("R2 differs", kind, sem.MS(m0.Prints), sem.MS(m1.Prints))
+				return 1
+			}
+			jobs = append(jobs, sup.Job{Kind: "typecheck", Text: q.Text(), TypeBudget: 50000000})
+			desc = append(desc, kind)
+		}
+	}
+	bad := 0
+	for i, o := range pool.Run(jobs, nil) {
+		if o.Died() || o.Res == nil || !o.Res.ParseOK || !o.Res.TcOK {
+			bad++
+			if bad < 4 {
+				fmt.Println("real checker:", desc[i], o.Died(), o.Res != nil && o.Res.ParseOK, func() string { if o.Res != nil { return o.Res.TcErr + o.Res.ParseErr }; return "" }())
+				fmt.Println(clip(jobs[i].Text, 1500))
+			}
+		}
+	}
+	fmt.Println(len(jobs), "inflated programs,", bad, "not accepted by Grits")
+	return 0
+}
+
+func init() { devCmds["inflate"] = devInflate }
